@@ -8,6 +8,7 @@ from sim import gen, harness, install, world
 from sim.core import substream
 
 PROP = 'C01'
+TECHNIQUE = 'deterministic simulation: seeded search over configurations, inputs and thread/coroutine schedules of the real snapshot+restore; exact tree oracle'
 LEVEL = 'exploration'
 RULE = ('one case = init (seeded valid settings: encrypted or not, cipher, hash, chunk bounds incl. min=max and unaligned '
         'max) + snapshot of a seeded argument list (files, directories, repeats, overlaps, symlinked files/dirs) over a '
